@@ -88,6 +88,7 @@ def step_body(name, T, want, dt=0.25, pops=1, transfers=0, junction_init=False):
         # ------------------------------------------------------------------ hooks
         def post_pars(model):
             ti = model._t_index
+            state["npars"] = state.get("npars", 0) + 1
 
             def junction_domain(label):
                 for pop in model.pops:
@@ -99,7 +100,7 @@ def step_body(name, T, want, dt=0.25, pops=1, transfers=0, junction_init=False):
                             env.assume(env.b(s > 0), "domain restriction: plain junction %s has a positive proportion sum at index %d%s" % (c.name, ti, label))
 
             junction_domain("")
-            if not env.symbolic:
+            if not env.cutting:
                 return
             # parameter values driving flows are arbitrary for C01-C03: cut them (no guarantee needed)
             for pop in model.pops:
@@ -107,8 +108,8 @@ def step_body(name, T, want, dt=0.25, pops=1, transfers=0, junction_init=False):
                     if par.vals is None or not (par.links or par.units == "proportion"):
                         continue
                     v = par.vals[ti]
-                    if shim.is_sym(v):
-                        par.vals[ti] = env.cut(v, "par|%s|%s|%d" % (par.name, pop.name, ti))
+                    if shim.is_sym(v) or not env.symbolic:
+                        par.vals[ti] = env.cut(v, "par|%s|%s|%d|call%d" % (par.name, pop.name, ti, state["npars"]))
             junction_domain(" (cut values)")
 
         def pre_flush(model):
@@ -130,7 +131,7 @@ def step_body(name, T, want, dt=0.25, pops=1, transfers=0, junction_init=False):
             if "C04" in want or "C01" in want:
                 env.claim("C04_initial_flush_preserves_total", env.eq(tot, state["pre_flush_total"]), key="flush_total")
             # Inv after the flush: stocks >= 0 (cut)
-            if env.symbolic:
+            if env.cutting:
                 for pop in model.pops:
                     for c in pop.comps:
                         if is_plain(c) or isinstance(c, am.SinkCompartment):
@@ -155,8 +156,8 @@ def step_body(name, T, want, dt=0.25, pops=1, transfers=0, junction_init=False):
                             if "C03" in want and l.parameter is not None:
                                 env.claim("C03_source_emits_N_dt_over_T|" + tag, env.eq(v, env.smax(l.parameter.vals[ti], 0.0) * dtm / l.parameter.timescale, 1e-8), key="source_formula")
                             env.claim("G_source_flow_nonneg|" + tag, nn(v), key="flow_nonneg")
-                            if env.symbolic:
-                                l.vals[ti] = env.cut(v, "f|%s|%s|%d" % (l.name, tag, id(l) % 1000), [nn])
+                            if env.cutting:
+                                l.vals[ti] = env.cut(v, "f|%s|%s|%s" % (l.name, tag, l.dest.pop.name), [nn])
                     elif isinstance(c, am.JunctionCompartment):
                         inflow = 0.0
                         for l in c.inlinks:
@@ -238,7 +239,7 @@ def step_body(name, T, want, dt=0.25, pops=1, transfers=0, junction_init=False):
                                 for k in range(len(flows)):
                                     env.claim("C02_negative_parameter_zero_flow|%s|%d" % (tag, k), env.eq(flows[k], 0.0, 0), under=env.b(c.outlinks[k].parameter.vals[ti] <= 0), key="negative_par_zero_flow")
             # ---- cut all recorded flows (fresh, >= 0) and re-tie the caches to the cut values
-            if not env.symbolic:
+            if not env.cutting:
                 return
             for pop in model.pops:
                 for c in pop.comps:
@@ -250,14 +251,14 @@ def step_body(name, T, want, dt=0.25, pops=1, transfers=0, junction_init=False):
                     if isinstance(c, am.TimedCompartment):
                         n = _rows(c)
                         newc = [0.0] * n
-                        for l in c.outlinks:
+                        for lk, l in enumerate(c.outlinks):
                             if isinstance(l, am.TimedLink):
                                 for r in range(n):
                                     if r == 0:
                                         l._vals[0, ti] = 0.0 if not shim.is_sym(l._vals[0, ti]) else l._vals[0, ti]
                                         newc[0] = newc[0] + l._vals[0, ti]
                                         continue
-                                    cv = env.cut(l._vals[r, ti], "tf|%s|%s|r%d" % (tag, l.dest.name, r), [nn])
+                                    cv = env.cut(l._vals[r, ti], "tf|%s|%d|r%d" % (tag, lk, r), [nn])
                                     l._vals[r, ti] = cv
                                     newc[r] = newc[r] + cv
                             elif l is c.flush_link:
@@ -268,7 +269,7 @@ def step_body(name, T, want, dt=0.25, pops=1, transfers=0, junction_init=False):
                                 # ordinary link: per-row shares are not recorded; cut the shares, the link value is their sum
                                 tot = 0.0
                                 for r in range(n):
-                                    sh = env.cut(None, "of|%s|%s|r%d" % (tag, l.dest.name, r), [nn])
+                                    sh = env.cut(None, "of|%s|%d|r%d" % (tag, lk, r), [nn])
                                     newc[r] = newc[r] + sh
                                     tot = tot + sh
                                 l.vals[ti] = tot
@@ -372,7 +373,7 @@ def step_body(name, T, want, dt=0.25, pops=1, transfers=0, junction_init=False):
             if "C01" in want:
                 env.claim("C01_total_changes_only_by_source_outflow|%d" % tr, env.eq(tot_new, tot_old + src_out), key="total")
             # Inv: cut the new stocks
-            if env.symbolic:
+            if env.cutting:
                 for pop in model.pops:
                     for c in pop.comps:
                         if is_plain(c) or isinstance(c, am.SinkCompartment):
@@ -432,9 +433,9 @@ def specs(prop, tier):
         if not q:
             lst += [("M5", 3, {}), ("M8", 4, {}), ("M7", 4, dict(dt=0.5)), ("M8", 5, dict(dt=0.125))]
         if prop in ("C01", "C02"):
-            lst += [("M5", 3, dict(junction_init=True)), ("M8", 4, {})] if q else []
+            lst += [("M5", 3, dict(junction_init=True)), ("M5R", 3, dict(junction_init=True)), ("M8", 4, {})] if q else [("M5R", 3, dict(junction_init=True))]
     elif prop == "C04":
-        lst = [("M4", 3, dict(junction_init=True)), ("M5", 3, dict(junction_init=True)), ("M6", 3, dict(junction_init=True)), ("M8", 4, {}), ("M12", 3, dict(junction_init=True))]
+        lst = [("M4", 3, dict(junction_init=True)), ("M5", 3, dict(junction_init=True)), ("M5R", 3, dict(junction_init=True)), ("M6", 3, dict(junction_init=True)), ("M8", 4, {}), ("M12", 3, dict(junction_init=True))]
     elif prop == "C05":
         lst = [("M7", 4, {}), ("M8", 4, {}), ("M7", 4, dict(pops=2, transfers=1))]
         if not q:
